@@ -445,10 +445,10 @@ AlgCheckType(t, x, dflt) ==
           ELSE Er(r1.dev, r1.m)
 
 \* One key through parse_object({key: x}) / parse_args(["--key=" + text]):
-\*   _core._check_value_key:1410  None is not checked (lenient_check)
+\*   _core._check_value_key:1413  None is not checked (lenient_check)
 \*   _apply_actions / ActionTypeHint.__call__   first _check_type
 \*   add_sub_defaults:463-473     str values are applied once more
-\*   validate / check_values:1124-1129   every non-None value is checked again on a clone, the result is discarded
+\*   validate / check_values:1127-1132   every non-None value is checked again on a clone, the result is discarded
 AlgParse(t, x, dflt) ==
   IF x = NoneV THEN Ok(NoneV, {}, x)
   ELSE LET r1 == AlgCheckType(t, x, dflt) IN
